@@ -144,14 +144,15 @@ def check_out(outpath, main_src, packages, res, case, sigtail, breaks=None):
 _BUILDS = [0]
 
 
-def build(d, args):
-    """Builds d/main.lua. Where OUT goes rotates over the builds of a run: next to main.lua, into a sub-directory, into a
+def build(d, args, keep_out=False, where=None):
+    """Builds d/main.lua (keep_out: onto the cart a previous build left there, as a re-build does). Where OUT goes rotates over the builds of a run: next to main.lua, into a sub-directory, into a
     sibling directory outside the project (each holding decoy files named like common packages), and with main.lua
     named relative to the working directory - where the packages are looked up never depends on where the cart goes."""
     from pico8 import tool
     import zlib
     # (a function of the case, not of the order of builds: a replayed case takes the same placement)
-    where = zlib.crc32(open(os.path.join(d, 'main.lua'), 'rb').read() + repr([a.replace(d, '<D>') for a in args]).encode()) % 4
+    if where is None:
+        where = zlib.crc32(open(os.path.join(d, 'main.lua'), 'rb').read() + repr([a.replace(d, '<D>') for a in args]).encode()) % 4
     outdir = {0: d, 1: os.path.join(d, 'build'), 2: d + '_out', 3: d}[where]
     os.makedirs(outdir, exist_ok=True)
     if where in (1, 2):
@@ -159,7 +160,7 @@ def build(d, args):
             if not os.path.exists(os.path.join(outdir, decoy)):
                 open(os.path.join(outdir, decoy), 'wb').write(b'decoy_next_to_out=1\n')
     out = os.path.join(outdir, 'out.p8')
-    if os.path.exists(out):
+    if os.path.exists(out) and not keep_out:
         os.unlink(out)
     if where == 1:
         # another section taken from a cart that lives in the directory with the decoys: where the packages are looked up
@@ -645,6 +646,13 @@ def run_siblings(part, res):
 
 
 def resave_history(res):
+    for where in (0, 1, 3):
+        resave_history_at(res, where)
+
+
+def resave_history_at(res, where):
+    """Three builds of one project, its sources edited in between, each ONTO the cart the previous build wrote (what
+    `p8tool build game.p8 --lua main.lua` run again does): the cart holds the current program and packages only."""
     d = fresh_dir()
     try:
         for step in range(3):
@@ -655,7 +663,7 @@ def resave_history(res):
             res.evaluations += 1
             res.nontriv(('resave', step))
             case = {'kind': 'resave', 'step': step}
-            rcode, err, out = build(d, [])
+            rcode, err, out = build(d, [], keep_out=True, where=where)
             if err is not None or rcode != 0:
                 res.violation('C14|build-fails|resave', 'build %d in the same directory failed: %r' % (step, err or rcode), case)
                 return
